@@ -1570,6 +1570,14 @@ def run_spox(op: Op, call, value_prop: bool = False, vs=None, keep_outputs: bool
                             "args": [from_spox_type(v.type) for v in body.requested_arguments[2:]]}
                     elif op.name == "Compress":
                         res["node"]["compress"] = {"axis": None if nd.attrs.axis is None else int(nd.attrs.axis.value)}
+                    # the declared types of the body's formal arguments (model: loopFormals / scanFormals / seqMapFormals)
+                    if op.name in BODY_OPS:
+                        g = (nd.attrs.then_branch if op.name == "If" else nd.attrs.body).value
+                        res["node"]["formals"] = {
+                            "kind": {"Loop": "loop", "Scan": "scan", "SequenceMap": "seqmap", "If": "if"}[op.name],
+                            "real": [from_spox_type(a.type) for a in (g.requested_arguments or [])]}
+                        if op.name == "Scan":
+                            res["node"]["formals"]["num_scan"] = int(nd.attrs.num_scan_inputs.value)
                 except Exception as e:  # noqa: BLE001
                     res["obs_errors"].append(f"supplement inputs: {type(e).__name__}: {e}"[:200])
         except Exception as e:  # noqa: BLE001
@@ -1631,6 +1639,8 @@ def model_request(op: Op, call, sp: dict) -> Optional[dict]:
         sp["proto_obs"] = {"to": real_to, "from": real_from}
     except Exception as e:  # noqa: BLE001
         sp["proto_obs_error"] = f"{type(e).__name__}: {e}"[:200]
+    if "formals" in sp["node"] and not any(has_other(t) for t in sp["node"]["formals"]["real"]):
+        req["formals"] = {k: v for k, v in sp["node"]["formals"].items() if k != "real"}
     for k in ("loop", "compress"):
         if k in sp["node"] and cls is not None and is_patched(cls) and not any(has_other(t) for v in sp["node"][k].values() if isinstance(v, list) for t in v):
             req[k] = sp["node"][k]
